@@ -25,6 +25,11 @@ structure NodeOut where
   len : Nat
   base : Nat
 
+/-- what identifies ONE check result for the purpose of its encoded length: every field the encoding depends on.  (A unit of
+work — a work id — can be in the pool in several versions: the first check and re-checks on higher blocks.) -/
+def lenKey (r : CheckResult) : String :=
+  s!"{r.workID}@{r.trigger.blockNumber}/{r.trigger.blockHash}/{r.gas}/{r.fastGasWei}/{r.linkNative}/{r.performData}"
+
 structure Case where
   ctx : Ctx
   seq : Nat
@@ -33,6 +38,7 @@ structure Case where
   nodes : List NodeIn
   outs : List (Option NodeOut)
   errs : List String
+  evalErrs : List String   -- the instance evaluated Outcome / Reports on the round's inputs after observing, and that failed
 
 def decodeCase (input impl : Json) : R Case := do
   let x ← field input "x"
@@ -45,7 +51,7 @@ def decodeCase (input impl : Json) : R Case := do
   for pj in poolJ do
     let r ← checkResult pj
     pool := pool.push r
-    lenOf := lenOf.insert r.workID (← natF pj "len")
+    lenOf := lenOf.insert (lenKey r) (← natF pj "len")
   let nodesJ ← listF (fun j => pure j) x "nodes"
   let mut nodes : List NodeIn := []
   for nj in nodesJ do
@@ -63,9 +69,11 @@ def decodeCase (input impl : Json) : R Case := do
   let outsJ ← listF (fun j => pure j) impl "nodes"
   let mut outs : List (Option NodeOut) := []
   let mut errs : List String := []
+  let mut evalErrs : List String := []
   for oj in outsJ do
     let err := (fieldD oj "err" (.str "")).getStr?.toOption.getD ""
     errs := errs ++ [err]
+    evalErrs := evalErrs ++ [(fieldD oj "evalErr" (.str "")).getStr?.toOption.getD ""]
     match fieldD oj "obs" .null with
     | .null => outs := outs ++ [none]
     | ob => outs := outs ++ [some { obs := ← observation ob, len := ← natF oj "len", base := ← natF oj "base" }]
@@ -75,7 +83,8 @@ def decodeCase (input impl : Json) : R Case := do
       wg := fun _ _ => ""
       key := fun w => (keyM.get? w).getD w
       uid := fun r => r.workID }
-  pure { ctx := ctx, seq := ← natF x "seq", prev := prev, lenOf := lenOf, nodes := nodes, outs := outs, errs := errs }
+  pure { ctx := ctx, seq := ← natF x "seq", prev := prev, lenOf := lenOf, nodes := nodes, outs := outs, errs := errs,
+         evalErrs := evalErrs }
 
 def inflightOf (ids : List String) : CheckResult → Bool :=
   let s : Std.HashSet String := ids.foldl (fun s w => s.insert w) {}
@@ -113,7 +122,7 @@ def judgeNode (c : Case) (ni : NodeIn) (out : NodeOut) : NodeVerdict :=
               condProps := v0.condProps ++ ni.readd.filter (fun p => c.ctx.utg p.upkeepID = .condition) }
   let inflight := inflightOf ni.inflightIds
   let inflightP := inflightPOf ni.inflightIds
-  let si : SizeInfo := { base := out.base, encLen := fun r => (c.lenOf.get? r.workID).getD 0 }
+  let si : SizeInfo := { base := out.base, encLen := fun r => (c.lenOf.get? (lenKey r)).getD 0 }
   let lc := out.obs.proposals.filter (fun p => c.ctx.utg p.upkeepID = .log)
   let cc := out.obs.proposals.filter (fun p => c.ctx.utg p.upkeepID = .condition)
   let want := observationOf c.ctx limits maxLen v.staged inflight lc cc v.hist si
@@ -191,6 +200,10 @@ def handle (input impl : Json) : R Reply := do
       if fail.isEmpty then
         fail := "two nodes holding the same candidates sent different performable lists"
   | _ => pure ()
+  for (e, i) in c.evalErrs.zipIdx do
+    if !e.isEmpty then
+      si := false
+      if fail.isEmpty then fail := s!"instance {i}, after its observation: {e}"
   let info ← natMap (fieldD (← field input "x") "info" .null)
   let infoTag (k tag : String) : List String := if (info.get? k).getD 0 > 0 then [tag] else []
   tags := tags ++ (if c.seq % 10 == 9 || c.seq % 10 == 0 then ["seq-at-/10-boundary"] else []) ++
@@ -203,8 +216,13 @@ def handle (input impl : Json) : R Reply := do
     infoTag "same-head-reorg" "script:same-head-reorg" ++ infoTag "tail-corrected" "script:history-tail-corrected" ++
     infoTag "restaged-on-newer-block" "script:restaged-on-newer-check-block" ++
     infoTag "older-check-ignored" "script:older-check-arrives-late" ++
+    infoTag "recheck-bytes-grown" "script:re-check-encodes-longer-than-the-replaced-result" ++
+    infoTag "recheck-bytes-shrunk" "script:re-check-encodes-shorter-than-the-replaced-result" ++
+    infoTag "rerun-on-same-previous-outcome" "script:round-run-again-on-the-same-previous-outcome" ++
     infoTag "at-ttl-boundary" "script:observation-at-ttl-boundary" ++
     infoTag "history-burst" "script:history-views-queued-back-to-back" ++
+    infoTag "surfaced-result-in-flight-on-one-node" "script:surfaced-result-in-flight-on-one-node" ++
+    (if c.evalErrs.any (fun e => !e.isEmpty) then ["evaluation-after-observation-failed"] else []) ++
     infoTag "staged-at-a-collector-tick" "script:staged-at-a-collector-tick" ++
     infoTag "proposal-reproposed-after-expiry" "proposal-reproposed-after-expiry" ++
     (if c.nodes.any (fun n => n.view.staged.any (fun r => decide (r.workID.length > 64))) then ["work-ids-longer-than-64"] else []) ++
